@@ -15,6 +15,20 @@ stdin : JSON dict(mode=..., cases=[...])
                   lock=True/None give an RLock, lock=False the raw object; a pickle round trip as done for
                   a spawn child yields the same semaphore and the same storage
   mode 'procs' -> real processes: visibility parent<->child and locked increments (thorough tier)
+  mode 'hops'  cases: dict(ops=[...]) -- hand-overs between emulated processes.  A process is the per-interpreter
+        state that decides how a shared object pickles: the ForkingPickler registry (a fresh process has what a
+        fresh interpreter has after importing billiard: the snapshot taken when this driver starts), the
+        class/property caches of sharedctypes, and its own heap (real mmap arenas).
+        ['spawn']                  a new process
+        ['new', p, kind, spec]     process p allocates (kind/spec as in mode 'mem')
+        ['send', k, q]             handle k is pickled inside its holder exactly as for a spawn child
+                                   (ForkingPickler.dumps under the spawning flag, fds duplicated) and
+                                   unpickled inside process q -> a new handle
+        ['write', k, off, bytes]   raw store through handle k
+      -> per op dict(created=[owner, [arena, start, stop], size] | None, backed, expect, reads=[bytes of every handle])
+  mode 'chain' cases: dict(method, depth, obj=dict(kind, t, init|value, sync), n) -- REAL processes:
+        the driver creates the object and starts a child with it, which works on it and starts a grandchild
+        with it, ... (sharedmem_targets.chain_level); every level reports what it saw on entry and at exit
 
 Arenas: a bytearray-backed stub (zero-filled like a fresh mmap) unless real=True.
 """
@@ -28,7 +42,11 @@ import mmap as real_mmap
 import billiard.heap as bh
 from billiard import sharedctypes as sc
 
+from billiard.reduction import ForkingPickler
+
 REAL_ARENA = bh.Arena
+# what a fresh interpreter has registered after importing billiard.heap / billiard.sharedctypes
+BASE_REDUCERS = dict(ForkingPickler._extra_reducers)
 
 
 class BufArena:
@@ -354,6 +372,214 @@ def run_locks():
             out.append(rec)
     return out
 
+# ---------------------------------------------------------------- hand-overs between (emulated) processes
+class EmuProc:
+    """the per-interpreter state of one process, as far as pickling shared ctypes objects goes"""
+    def __init__(self):
+        import weakref
+        self.reducers = dict(BASE_REDUCERS)
+        self.class_cache = weakref.WeakKeyDictionary()
+        self.prop_cache = {}
+        self.heap = bh.Heap()
+
+    def __enter__(self):
+        ForkingPickler._extra_reducers.clear()
+        ForkingPickler._extra_reducers.update(self.reducers)
+        sc.class_cache = self.class_cache
+        sc.prop_cache = self.prop_cache
+        bh.BufferWrapper._heap = self.heap
+        return self
+
+    def __exit__(self, *exc):
+        self.reducers = dict(ForkingPickler._extra_reducers)
+        return False
+
+
+class DupTrackingPopen:
+    """a spawning Popen for pickling: file descriptors are duplicated for the 'child'; the duplicates
+    are closed when the case is over"""
+    from billiard.popen_spawn_posix import _DupFd as DupFd
+
+    def __init__(self):
+        self.dups = []
+
+    def duplicate_for_child(self, fd):
+        d = os.dup(fd)
+        self.dups.append(d)
+        return d
+
+
+def _mmap_address(buf):
+    c = ctypes.c_char.from_buffer(buf)
+    try:
+        return ctypes.addressof(c)
+    finally:
+        del c
+
+
+def run_hops_case(c):
+    import pickle
+    import billiard
+    from billiard import context as bctx
+    bh.Arena = REAL_ARENA
+    bh.mmap = real_mmap
+    saved = (dict(ForkingPickler._extra_reducers), sc.class_cache, sc.prop_cache, bh.BufferWrapper._heap)
+    spawn = billiard.get_context('spawn')
+    procs = [EmuProc()]
+    handles = []          # (process index, object)
+    popen = DupTrackingPopen()
+    out = []
+
+    def locate(o):
+        """[owner, [arena index, start, stop], size] of the storage the object's wrapper names"""
+        (arena, start, stop), size = raw_of(o)._wrapper._state
+        st = os.fstat(arena.fd)
+        for pi, pr in enumerate(procs):
+            for ai, a in enumerate(pr.heap._arenas):
+                s2 = os.fstat(a.fd)
+                if (s2.st_dev, s2.st_ino) == (st.st_dev, st.st_ino):
+                    return [pi, [ai, start, stop], size]
+        return [-1, [-1, start, stop], size]
+
+    def backed(o):
+        """the object's memory IS the bytes [start, start+size) of the mapping of its wrapper's arena"""
+        r = raw_of(o)
+        (arena, start, stop), size = r._wrapper._state
+        return ctypes.addressof(r) == _mmap_address(arena.buffer) + start and ctypes.sizeof(r) == size
+
+    try:
+        for op in c['ops']:
+            rec = dict(created=None, backed=None, expect=None)
+            try:
+                if op[0] == 'spawn':
+                    procs.append(EmuProc())
+                elif op[0] == 'new':
+                    pi, kind, spec = op[1], op[2], op[3]
+                    tn = spec['t']
+                    ct = ctype_of(tn)
+                    targ = tn if tn in sc.typecode_to_type else ct
+                    sync = spec.get('sync')
+                    with procs[pi]:
+                        if kind == 0:
+                            args = [conv(tn, a) for a in spec['args']]
+                            o = sc.Value(targ, *args, ctx=spawn) if sync else sc.RawValue(targ, *args)
+                            exp = private_bytes(ct(*args))
+                        elif kind == 1:
+                            o = sc.Array(targ, spec['n'], ctx=spawn) if sync else sc.RawArray(targ, spec['n'])
+                            exp = private_bytes((ct * spec['n'])())
+                        else:
+                            init = [conv(tn, a) for a in spec['init']]
+                            o = sc.Array(targ, init, ctx=spawn) if sync else sc.RawArray(targ, init)
+                            exp = private_bytes((ct * len(init))(*init))
+                    handles.append((pi, o))
+                    rec.update(created=locate(o), backed=backed(o), expect=exp)
+                    del o
+                elif op[0] == 'send':
+                    k, q = op[1], op[2]
+                    src, o = handles[k]
+                    with procs[src]:
+                        bctx.set_spawning_popen(popen)
+                        try:
+                            data = bytes(ForkingPickler.dumps(o))
+                        finally:
+                            bctx.set_spawning_popen(None)
+                    with procs[q]:
+                        o2 = pickle.loads(data)
+                    handles.append((q, o2))
+                    rec.update(created=locate(o2), backed=backed(o2), cls=[type(o).__name__, type(o2).__name__],
+                               raw_cls=[type(raw_of(o)).__name__, type(raw_of(o2)).__name__])
+                    if isinstance(o, sc.SynchronizedBase) and isinstance(o2, sc.SynchronizedBase):
+                        l1, l2 = o.get_lock(), o2.get_lock()
+                        l1.acquire()
+                        got = l2.acquire(False)
+                        if got:
+                            l2.release()
+                        l1.release()
+                        got_after = l2.acquire(False)
+                        if got_after:
+                            l2.release()
+                        rec['lock_shared'] = (not got) and bool(got_after)
+                    del o, o2
+                elif op[0] == 'write':
+                    r = raw_of(handles[op[1]][1])
+                    data = bytes(op[3])
+                    if op[2] < 0 or op[2] + len(data) > ctypes.sizeof(r):
+                        raise ValueError('outside the object')
+                    ctypes.memmove(ctypes.addressof(r) + op[2], data, len(data))
+                    del r
+                else:
+                    raise SystemExit('bad op %r' % (op,))
+            except SystemExit:
+                raise
+            except Exception as exc:
+                rec['exc'] = type(exc).__name__ + ': ' + str(exc)[:200]
+                out.append(rec)
+                break
+            rec['reads'] = [read_bytes(o) for _, o in handles]
+            rec['holders'] = [pi for pi, _ in handles]
+            out.append(rec)
+    finally:
+        del handles[:]
+        ForkingPickler._extra_reducers.clear()
+        ForkingPickler._extra_reducers.update(saved[0])
+        sc.class_cache, sc.prop_cache, bh.BufferWrapper._heap = saved[1], saved[2], saved[3]
+        for d in popen.dups:
+            try:
+                os.close(d)
+            except OSError:
+                pass
+    return dict(obs=out, pagesize=real_mmap.PAGESIZE)
+
+
+# ---------------------------------------------------------------- real chains parent -> child -> grandchild ...
+def run_chain_case(c):
+    import signal
+    import billiard
+    import sharedmem_targets as tg
+    bh.Arena = REAL_ARENA
+    bh.mmap = real_mmap
+    bh.BufferWrapper._heap = bh.Heap()
+    res = dict(case=c)
+
+    def on_alarm(signum, frame):
+        raise TimeoutError('chain scenario exceeded its time limit')
+    old = signal.signal(signal.SIGALRM, on_alarm)
+    signal.alarm(int(c.get('limit', 90)))
+    p = None
+    try:
+        ctx = billiard.get_context(c['method'])
+        spec = c['obj']
+        t = spec['t']
+        targ = t if t in sc.typecode_to_type else ctype_of(t)
+        if spec['kind'] == 'Value':
+            o = sc.Value(targ, spec['value'], ctx=ctx) if spec.get('sync') else sc.RawValue(targ, spec['value'])
+        else:
+            o = sc.Array(targ, spec['init'], ctx=ctx) if spec.get('sync') else sc.RawArray(targ, spec['init'])
+        res['initial'] = tg.snapshot(o)
+        pc, cc = ctx.Pipe()
+        p = ctx.Process(target=tg.chain_level, args=(1, c['depth'], c['method'], o, cc, c['n']))
+        p.start()
+        cc.close()
+        try:
+            res['report'] = pc.recv() if pc.poll(60) else None
+        except EOFError:
+            res['report'] = None
+        p.join(30)
+        res['exitcode'] = p.exitcode
+        res['final'] = tg.snapshot(o)
+    except Exception as exc:            # reported, judged by the caller
+        res['error'] = '%s: %s' % (type(exc).__name__, str(exc)[:300])
+    finally:
+        signal.alarm(0)
+        signal.signal(signal.SIGALRM, old)
+        if p is not None and p._popen is not None and p.exitcode is None:
+            try:
+                p.terminate()
+            except Exception:
+                pass
+    return res
+
+
 # ---------------------------------------------------------------- real processes (thorough)
 def run_procs(c):
     import billiard
@@ -405,6 +631,10 @@ if __name__ == '__main__':
         res = run_traces()
     elif req['mode'] == 'locks':
         res = run_locks()
+    elif req['mode'] == 'hops':
+        res = [run_hops_case(c) for c in req['cases']]
+    elif req['mode'] == 'chain':
+        res = [run_chain_case(c) for c in req['cases']]
     else:
         res = run_procs(req)
     bh.Arena = REAL_ARENA
